@@ -980,8 +980,9 @@ fn run_case(cx: &mut Ctx, r: &mut Rng, case_no: u64, max_crashes: usize, script:
             ghost.shrink(&new_recs);
             match &ev {
                 Ev::Elect => {
-                    ghost.acted = ghost.acted.max(term);
+                    // an election that could not persist its record returns without announcing anything
                     if term == term_before + 1 {
+                        ghost.acted = ghost.acted.max(term);
                         ghost.votes.insert((term, SELF_ID));
                     }
                 }
@@ -1099,7 +1100,7 @@ fn run_case(cx: &mut Ctx, r: &mut Rng, case_no: u64, max_crashes: usize, script:
                 if after.len() != before.len() {
                     cx.rep.disagree("fail.wrote", json!({"history": history, "ev": line}), "the WAL file changed during a handler whose appends must all fail", "unchanged file");
                 }
-                if log.len() != log_before.len() || log.iter().zip(log_before.iter()).any(|(a, b)| a != b) {
+                if !matches!(ev, Ev::Compact { .. }) && (log.len() != log_before.len() || log.iter().zip(log_before.iter()).any(|(a, b)| a != b)) {
                     // what append_leader_entries did before fix 54033160
                     cx.rep.violation(
                         WALFAIL_CLASS,
@@ -1884,34 +1885,37 @@ fn main() {
     {
         let mut cx = Ctx { m: &mut m, rep: &mut rep, seen: HashSet::new(), thorough, slow_budget: if thorough { 40 } else { 2 } };
         let t_all = std::time::Instant::now();
+        // debugging aid: C10_ONLY_COMPACT=1 runs the compact stream alone
+        let only_compact = std::env::var("C10_ONLY_COMPACT").is_ok();
+        let cnt = |t: u64, q: u64| -> u64 { if only_compact { 0 } else if thorough { t } else { q } };
         // directed regression cases of the two fixed findings of this round run first
         if std::env::var("C10_TIMES").is_ok() { eprintln!("before rot.node {:?}", t_all.elapsed()); }
         let mut r = root.fork("rot.node");
-        for i in 0..(if thorough { 6 } else { 2 }) {
+        for i in 0..cnt(6, 2) {
             run_rot_node(&mut cx, &mut r, 30_000 + i);
         }
         let mut rf = root.fork("fail");
         cx.thorough = false;
-        for (i, (script, flags)) in fail_scripts().into_iter().enumerate() {
+        for (i, (script, flags)) in fail_scripts().into_iter().enumerate().filter(|_| !only_compact) {
             cx.rep.hit("fail.script.directed");
             run_case(&mut cx, &mut rf, 40_000 + i as u64, if thorough { 2 } else { 1 }, Some(script), "fail", &FailCfg { scripted: flags, prob: 25 });
         }
         cx.thorough = thorough;
         if std::env::var("C10_TIMES").is_ok() { eprintln!("before raw {:?}", t_all.elapsed()); }
         let mut r = root.fork("raw");
-        let n_raw = if thorough { 1500 } else { 150 };
+        let n_raw = cnt(1500, 150);
         for i in 0..n_raw {
             run_raw(&mut cx, &mut r, i);
         }
         if std::env::var("C10_TIMES").is_ok() { eprintln!("before rot.raw {:?}", t_all.elapsed()); }
         let mut r = root.fork("rot.raw");
-        for i in 0..(if thorough { 800 } else { 80 }) {
+        for i in 0..cnt(800, 80) {
             run_rot_raw(&mut cx, &mut r, 20_000 + i);
         }
         cx.m.ask("clear");
         if std::env::var("C10_TIMES").is_ok() { eprintln!("before snapshot {:?}", t_all.elapsed()); }
         let mut r = root.fork("snapshot");
-        for i in 0..(if thorough { 300 } else { 30 }) {
+        for i in 0..cnt(300, 30) {
             let (script, variant) = snapshot_script(&mut r);
             cx.rep.hit(&format!("snapshot.script.{variant}"));
             cx.thorough = thorough && i < 30;
@@ -1943,15 +1947,17 @@ fn main() {
         TRAILING.store(100, std::sync::atomic::Ordering::Relaxed);
         if std::env::var("C10_TIMES").is_ok() { eprintln!("before fail {:?}", t_all.elapsed()); }
         cx.thorough = false;
-        for i in 0..(if thorough { 300 } else { 8 }) {
+        for i in 0..cnt(300, 8) {
             run_case(&mut cx, &mut rf, 41_000 + i, 2, None, "fail", &FailCfg { scripted: vec![], prob: 30 });
         }
-        probe_codebook(&mut cx);
+        if !only_compact {
+            probe_codebook(&mut cx);
+        }
         if std::env::var("C10_TIMES").is_ok() { eprintln!("before chain {:?}", t_all.elapsed()); }
         let mut r = root.fork("chain");
         // thorough: every byte of every phase for the first 30 scripts, then many more scripts with
         // boundary±{1,3,7} + random cuts
-        let n_chain = if thorough { 400 } else { 40 };
+        let n_chain = cnt(400, 40);
         for i in 0..n_chain {
             cx.thorough = thorough && i < 30;
             run_case(&mut cx, &mut r, i, 3, None, "chain", &FailCfg::none());
